@@ -89,7 +89,11 @@ func genBody(r *vh.Rand, text bool) []byte {
 var uriPool = []string{"/", "/a", "/a/b/c", "/a?x=1&y=2", "/p%20q", "/a%2Fb?z=%26", "/buy/?rt=0&station_to=7", "/~u/index.html", "/a;p=1", "/%D0%B6", "/a/../b", "/a//b", "/?"}
 var methodPool = []string{"GET", "POST", "PUT", "DELETE", "PATCH", "HEAD", "OPTIONS", "FOO", "get"}
 
-func genCase(r *vh.Rand, paused bool) string {
+// genCase: mode 0 = requests back to back; 1 = 1.3-1.6 s between the requests of an instance; 2 = a SHORT configured dial
+// timeout (250 / 300 ms) and 500-650 ms between the requests, so that every instance outlives the dial timeout (round 7:
+// the timeout bounds the dial, an established connection / tunnel must survive it)
+func genCase(r *vh.Rand, mode int) string {
+	paused := mode != 0
 	format := r.Pick([]string{"uri", "uripost", "jsonline", "raw", "uripost", "jsonarr"})
 	ssl := r.Chance(1, 3)
 	ka := r.Chance(2, 3)
@@ -210,6 +214,22 @@ func genCase(r *vh.Rand, paused bool) string {
 		}
 		opts += "2"
 	}
+	// gun kind connect (plain or connect-ssl) instead of http: the requests go through a CONNECT tunnel to the target
+	addOpt := func(t string) {
+		if opts != "" {
+			opts += "."
+		}
+		opts += t
+	}
+	if !strings.HasSuffix(opts, "2") && r.Chance(1, 3) {
+		addOpt(r.Pick([]string{"k", "k", "K"}))
+	}
+	// dial.timeout: short in mode 2; otherwise sometimes the documented example (1s) or a short one
+	if mode == 2 {
+		addOpt(fmt.Sprintf("T%d", r.PickInt([]int{250, 300})))
+	} else if r.Chance(1, 6) {
+		addOpt(fmt.Sprintf("T%d", r.PickInt([]int{300, 1000, 1000})))
+	}
 	status, size := r.PickInt([]int{200, 200, 200, 204, 301, 404, 500}), r.PickInt([]int{0, 2, 2, 1000, 70000, 300000, 1200000})
 	if status == 301 && size > 2048 && strings.Contains("."+opts+".", ".r.") {
 		// net/http's redirect-following client reads at most 2 KB of a redirect answer and closes the connection otherwise
@@ -229,8 +249,10 @@ func genCase(r *vh.Rand, paused bool) string {
 	pools := r.PickInt([]int{1, 1, 1, 2, 3})
 	late := r.Chance(1, 3) && !paused
 	pause := 0
-	if paused {
+	if mode == 1 {
 		pause = r.PickInt([]int{1300, 1300, 1600})
+	} else if mode == 2 {
+		pause = r.PickInt([]int{500, 650})
 	}
 	kaf := vh.B(ka)
 	if opts != "" {
@@ -270,7 +292,13 @@ func gen(r *vh.Rand, tier string) []string {
 	}
 	out := make([]string, 0, n)
 	for i := 0; i < n; i++ {
-		out = append(out, genCase(r, i%100 == 50)) // 1% of the cases pause between the requests
+		mode := 0
+		if i%100 == 50 { // 1% of the cases pause 1.3-1.6 s between the requests
+			mode = 1
+		} else if i%33 == 16 { // 3%: short dial timeout, outlived by every instance
+			mode = 2
+		}
+		out = append(out, genCase(r, mode))
 	}
 	// scripted histories on the real guns / clients / transports, compared exactly with the transport model
 	nh := 200
